@@ -249,6 +249,7 @@ func (st *State) vxCall(name string, args []Value, fn *ssa.Function) Value {
 	case "FreshInt":
 		return ts.Sym(st.freshName(st.cstr(args[0])), SBV64)
 	case "UFloat":
+		st.usedUF = true
 		nm := st.cstr(args[0])
 		sl := args[1].(SliceV)
 		var as []*Term
@@ -603,6 +604,7 @@ func (st *State) ufMath(name string, a *Term) *Term {
 	if st.realMode() {
 		a = st.toReal(a)
 	}
+	st.usedUF = true
 	r := ts.UF("uf_"+name, st.floatSort(), a)
 	prev := st.ufOcc[name]
 	for _, p := range prev {
@@ -693,6 +695,7 @@ func (st *State) ufMath2(name string, a, b *Term) *Term {
 	} else {
 		// constants stay F64
 	}
+	st.usedUF = true
 	return st.ts.UF("uf_"+name, st.floatSort(), a, b)
 }
 
